@@ -7,6 +7,7 @@ import (
 	realjson "encoding/json"
 	"io"
 	"log"
+	"math"
 	"time"
 
 	"golang.org/x/telemetry/internal/counter"
@@ -15,6 +16,7 @@ import (
 	"golang.org/x/telemetry/internal/vrt/vhttp"
 	"golang.org/x/telemetry/internal/vrt/vjson"
 	"golang.org/x/telemetry/internal/vrt/vos"
+	"golang.org/x/telemetry/internal/vrt/vrand"
 )
 
 const vuDir = "/t"
@@ -133,3 +135,17 @@ func vuContent(path string) string {
 var vuX = 0.5
 
 func vuComputeRandom() float64 { return vuX }
+
+// vuSetX makes the report's X equal x: under the engine through the redirect, natively
+// by feeding computeRandom the random bytes that yield x (frac = (x+1)/2 in [0.5,1)).
+func vuSetX(x float64) {
+	vuX = x
+	if !vrt.IsSymbolic() {
+		bits := math.Float64bits((x + 1) / 2)
+		b := make([]byte, 8)
+		for i := 0; i < 8; i++ {
+			b[i] = byte(bits >> (8 * i))
+		}
+		vrand.Next = b
+	}
+}
